@@ -22,6 +22,7 @@ pub mod rrun {
 pub mod scen_batch;
 pub mod scen_codec;
 pub mod scen_core;
+pub mod scen_ctors;
 
 use util::Out;
 
@@ -46,6 +47,8 @@ fn main() {
         "C02" => scen_core::c02(&opts, &mut out),
         "C03" => scen_batch::c03(&opts, &mut out),
         "C15" => scen_codec::c15(&opts, &mut out),
+        "C17" => scen_ctors::c17(&opts, &mut out),
+        "C06" => scen_ctors::c06(&opts, &mut out),
         other => {
             eprintln!("unknown scenario {}", other);
             std::process::exit(2);
